@@ -171,8 +171,8 @@ class LinearForm(_Form):
             # sum on gauss points
             values_e = (values_e_pg * dX_e_pg).integrate()
 
-            # add data
-            data[:, i] = values_e
+            # add data (the form is scalar valued: (Ne,) or (Ne, 1) once integrated)
+            data[:, i, 0] = np.reshape(values_e, groupElem.Ne)
 
         return data
 
